@@ -33,7 +33,24 @@ func puritySession(g *gen.G, idx int) Sess {
 		}
 		for i := 0; i < nb && alive; i++ {
 			id := fmt.Sprintf("s%d.b%d", idx, i)
-			merge(id, nil, g.EvalDoc())
+			d := g.EvalDoc()
+			d["name"] = fmt.Sprintf("d%d", i)
+			if i > 0 && g.P(0.6) {
+				// cross-document references to the first document: whole document,
+				// with $path, short form
+				pat := map[string]any{"name": "d0"}
+				switch g.N(4) {
+				case 0:
+					d["xwhole"] = map[string]any{"$replace": map[string]any{"$match": pat}}
+				case 1:
+					d["xpath"] = map[string]any{"$merge": map[string]any{"$match": pat, "$path": "h0"}, "own": 1}
+				case 2:
+					d["xshort"] = map[string]any{"$replace": []any{pat, "t0"}}
+				default:
+					d["xlist"] = []any{"a", map[string]any{"$merge": map[string]any{"$match": pat, "$path": "t1"}}}
+				}
+			}
+			merge(id, nil, d)
 			base = append(base, id)
 		}
 		nc := 2 + g.N(6)
